@@ -7,6 +7,7 @@ CONSTANTS
   XRC = {}
   XK = {}
   DSet = {}
+  BSet = {}
   SliceSet = {}
   SortCols = {}
   ESet = {}
